@@ -30,7 +30,7 @@ type Run struct {
 	TimeoutS int // per worker process watchdog
 	Prop     string
 	Extra    []string // extra worker args
-	// MaxAttempts bounds the restarts after crashes (default 25); workloads whose
+	// MaxAttempts bounds the restarts after crashes (default 8); workloads whose
 	// batch is one indivisible history use a small number
 	MaxAttempts int
 }
@@ -188,7 +188,7 @@ func runBatch(r *Run, batch int, dir string) *BatchResult {
 	logPath := filepath.Join(dir, fmt.Sprintf("%s.b%d.log", r.Name, batch))
 	res.LogPath = logPath
 	start := 0
-	maxAttempts := 25
+	maxAttempts := 8
 	if r.MaxAttempts > 0 {
 		maxAttempts = r.MaxAttempts
 	}
